@@ -25,9 +25,7 @@ VERIF = os.path.dirname(os.path.dirname(os.path.abspath(__file__)))
 
 
 def fingerprint(res):
-    r = dict(res)
-    r.pop("wall", None)
-    return hashlib.sha256(json.dumps(r, sort_keys=True, default=str).encode()).hexdigest()[:16]
+    return runner._fingerprint(res)
 
 
 class _FpMod:
